@@ -146,6 +146,12 @@ func (c *c16) newSet(i int) {
 			sm.lossy = c.t.Choose(4) == 3
 		}
 	}
+	// a development-mode Set and an ordinary one over ONE user-supplied cache: the development-mode Set
+	// neither reads nor fills it, whatever the other one put there
+	if i == 1 && sm.gen == 0 && len(c.sets) == 1 && c.sets[0] != nil && c.sets[0].gen == 0 && c.sets[0].simCache != nil && sm.simCache != nil && !sm.lossy && !c.sets[0].lossy && c.sets[0].dev != sm.dev && c.t.Choose(2) == 1 {
+		sm.simCache = c.sets[0].simCache
+		c.env.Stat("probe:development_and_ordinary_set_share_one_cache", 1)
+	}
 	if sm.lossy && sm.simCache != nil {
 		sc := sm.simCache
 		sc.Evict = func() bool { return c.t.Choose(3) == 0 }
